@@ -76,7 +76,7 @@ CHECKS = {
     ),
     "C15": (
         "fault_enumeration",
-        "Crash-consistency check: one injected stop per run (RuntimeError, MemoryError, ENOSPC, KeyboardInterrupt with/without pause and scripted answers) at stage-boundary points (before/after the update, before/after the frame writer) and at line-level pre-emption points (sys.settrace) inside the update and frame-writer functions, at every step of bounded runs in both stages, with explicit output paths (plain, nested, dotted) or none, with pre-existing files (same name, serial names, stale .tmp, unrelated). After solve() returned or raised: no HDF5 object left open, pre-existing files byte-identical, exactly one new output file, no .tmp / temp dir left, output readable, frames == those recorded before the stop (complete, content and per-step records equal to the fault-free twin), the injected error object propagates unchanged, cancellation returns a usable, reloadable partial solution (None during thermalisation / before the first frame). Seeded sampling of the crash-point space, not exhaustive.",
+        "Crash-consistency check. The first 840 runs of every batch enumerate EVERY stage-boundary crash point of a bounded family (k 1..3 x N 1..5 x {before/after update, before/after frame writer} x step 0..N x {RuntimeError, KeyboardInterrupt} x {temp dir, explicit path}; completeness reported as enumerated_crash_points in the evidence); the remaining runs sample the larger space: one injected stop per run (RuntimeError, MemoryError, ENOSPC, KeyboardInterrupt with/without pause and scripted answers) at stage-boundary points (before/after the update, before/after the frame writer) and at line-level pre-emption points (sys.settrace) inside the update and frame-writer functions, at every step of bounded runs in both stages, with explicit output paths (plain, nested, dotted) or none, with pre-existing files (same name, serial names, stale .tmp, unrelated). After solve() returned or raised: no HDF5 object left open, pre-existing files byte-identical, exactly one new output file, no .tmp / temp dir left, output readable, frames == those recorded before the stop (complete, content and per-step records equal to the fault-free twin), the injected error object propagates unchanged, cancellation returns a usable, reloadable partial solution (None during thermalisation / before the first frame). Beyond the enumerated family the crash-point space (line-level points, fault sequences, Engine A) is sampled, not exhausted.",
         "Trusted: fault-free twin of the same scenario (deterministic), recorder model, directory listing + h5py.h5f.get_obj_count. ENOSPC is raised at the call boundary, not by the kernel at flush time; torn writes inside one HDF5 call and process death are not simulated.",
         "deterministic simulation with fault injection: crash points at stage boundaries and line-level pre-emption, file-system/open-handle oracle, fault-free twin",
         "DESIGN.md 4/C15", 900, 14400,
